@@ -24,8 +24,9 @@
      filter_dataset_to_unique_treatments         filter_unique_view / filter_unique_screen
    Abstracted: numpy storage (a view's attribute arrays are recomputed on each access from the parent, as in
    the code); in-place mutation is not expressible here - every function returns a new value, the harness
-   checks on the real objects that the arguments are left untouched.  Plate.merge, Plate.plate_id/plate_name are
-   not modelled; single_treatment_effects only as the row selection of an opaque parent value (end of this file).  `a | b` on vectors of different length (numpy raises) cannot
+   checks on the real objects that the arguments are left untouched.  Plate.merge (which DOES mutate: it returns the
+   new value of self, parent included), Plate.plate_id / plate_name / __lt__, the one-line ScreenBase properties and Screen.combine
+   are modelled in the last sections of this file; single_treatment_effects only as the row selection of an opaque parent value (end of this file).  `a | b` on vectors of different length (numpy raises) cannot
    arise from views of one parent; [bor_vec] truncates and the constructor's length check then refuses.
 
    Also here: op trees over views ([vexpr]), their evaluator [eval] through the functions above, and the
